@@ -166,6 +166,9 @@ def value_for(ctx, target, pname, kind, sofar):
         epi = {t: [layout.Push('zz')] if r.random() < 0.2 else list(ctx.graph.epidata.get(t, [])) for t in ts if r.random() < 0.8}
         return Graph(ts, top=r.choice([None, None, ctx.var()]), epidata=epi, metadata={'id': 'other'})
     if kind == 'Graph':
+        if r.random() < 0.08:
+            # boundary: the empty graph (with or without metadata)
+            return Graph([], metadata=dict(ctx.graph.metadata) if r.random() < 0.5 else None)
         if pname == 'self' and r.random() < 0.3:
             ctx.graph._top = r.choice([ctx.graph._top, None, ctx.var()])
         return ctx.graph
@@ -434,6 +437,9 @@ def sweep(targets, n, seed, sidecar):
             ctx.model._verif_name = ctx.model_name
             entry = [clone(a) for a in args]
             snaps = [snapshot(a) for a in args]
+            _cont = [containers(a) for a in args]
+            pre_shared = {(i, j): set(_cont[i]) & set(_cont[j])
+                          for i in range(len(args)) for j in range(i + 1, len(args))}
             # preconditions first (on the entry values)
             rec = dsl.evaluate(cfn, [clone(a) for a in entry], dsl.ANY, {}, whitebox)
             if any(kind == 'requires' and v is False for kind, _, v in rec) or \
@@ -521,6 +527,28 @@ def sweep(targets, n, seed, sidecar):
                     out['failures'].append({'target': target, 'clause': 'frame[%s]' % ','.join(changed),
                                             'detail': 'argument(s) %s changed by the call' % ', '.join(changed),
                                             'args': [ser_arg(a) for a in entry], 'model': ctx.model_name})
+            # ownership: no list / dict / set held directly by one argument (or by the result) may
+            # be the very object another argument holds, unless it already was before the call
+            names = [pn for pn, _ in c.params] + ['result']
+            objs = list(args) + [res]
+            after = [containers(o) for o in objs]
+            for i in range(len(objs)):
+                for j in range(i + 1, len(objs)):
+                    if objs[i] is objs[j] or objs[i] is None or objs[j] is None:
+                        continue
+                    before = pre_shared.get((i, j), set()) if j < len(args) else set()
+                    now = set(after[i]) & set(after[j])
+                    new_shared = now - before
+                    if new_shared:
+                        key = ('shared', names[i], names[j])
+                        if key not in seen_fail:
+                            seen_fail.add(key)
+                            cid = sorted(new_shared)[0]
+                            out['failures'].append({
+                                'target': target, 'clause': 'frame[%s]:shared with %s' % (names[i], names[j]),
+                                'detail': 'after the call %s (%s) and %s (%s) hold the same mutable object'
+                                          % (names[i], after[i][cid], names[j], after[j][cid]),
+                                'args': [ser_arg(a) for a in entry], 'model': ctx.model_name})
             # postconditions: parameters denote entry values unless modified in place
             cargs, olds = [], {}
             for (pn, kind), a, e0, s0 in zip(c.params, args, entry, snaps):
@@ -556,6 +584,19 @@ def sweep(targets, n, seed, sidecar):
         out['per_target'][target] = stats
         out['evaluations'] += stats['evaluated']
         out['skipped'] += stats['skipped']
+    return out
+
+
+def containers(x):
+    """id -> description of the mutable containers an object holds directly (itself, if it is one)"""
+    out = {}
+    if isinstance(x, (list, dict, set)):
+        out[id(x)] = 'itself'
+    d = getattr(x, '__dict__', None)
+    if isinstance(d, dict) and not isinstance(x, type):
+        for k, v in d.items():
+            if isinstance(v, (list, dict, set)):
+                out[id(v)] = '.' + k
     return out
 
 
